@@ -170,6 +170,8 @@ struct Group {
     reg: bool,
     kind: u8,
     order: u8,
+    /// what the talker asked the constructor for, as a plain image (independent of the crate)
+    want_pn: Option<Pn>,
 }
 
 #[derive(Copy, Clone, PartialEq, Debug)]
@@ -613,7 +615,7 @@ impl<'a> Exec<'a> {
         })?;
         let want = [[0xB0 | ch, cn, (val >> 7) as u8], [0xB0 | ch, cn + 32, (val & 0x7f) as u8]];
         self.sink.check(R::C07_encode, p1 == want && p2 == want, || format!("({}, {}, {}) encodes to {:?} / {:?}, want {:?}", ch, cn, val, p1, p2, want));
-        self.put_group(g, Group { msg: GroupMsg::Cc14(msg), parts: p1.to_vec(), ch, num: cn as u16, reg: false, kind: 0, order: 0 });
+        self.put_group(g, Group { msg: GroupMsg::Cc14(msg), parts: p1.to_vec(), ch, num: cn as u16, reg: false, kind: 0, order: 0, want_pn: None });
         Ok(())
     }
 
@@ -649,7 +651,12 @@ impl<'a> Exec<'a> {
             }
         })?;
         let parts: Vec<[u8; 3]> = arr.iter().flatten().copied().collect();
-        self.put_group(g, Group { msg: GroupMsg::Pn(msg), parts, ch, num, reg, kind, order });
+        let want_pn = Some(Pn { ch, num, val, reg, b14: kind == K_14BIT, dt: match kind {
+            K_INC => 1,
+            K_DEC => 2,
+            _ => 0,
+        } });
+        self.put_group(g, Group { msg: GroupMsg::Pn(msg), parts, ch, num, reg, kind, order, want_pn });
         Ok(())
     }
 
@@ -988,9 +995,12 @@ impl<'a> Exec<'a> {
     fn judge_c12(&mut self, g: u32, got: &[Pn]) -> Result<(), Panicked> {
         let Some(grp) = self.group(g) else { return Ok(()) };
         let GroupMsg::Pn(msg) = &grp.msg else { return Ok(()) };
-        let want = api(L::pn_accessors, || pn_img(msg))?;
+        let built = api(L::pn_accessors, || pn_img(msg))?;
+        // "exactly that message": what the talker asked for, read through the accessors - not
+        // merely whatever the constructor made of it
+        let want = grp.want_pn.unwrap_or(built);
         self.p.rt_c12_checked += 1;
-        self.sink.check(R::C12_roundtrip, got.len() == 1 && got[0] == want, || format!("encoded {:?} was fed to the polling scanner; reported between its first part and the closing poll/message: {:?}", want, got));
+        self.sink.check(R::C12_roundtrip, got.len() == 1 && got[0] == want && built == want, || format!("encoded {:?} was fed to the polling scanner; reported between its first part and the closing poll/message: {:?}", want, got));
         Ok(())
     }
 
@@ -1397,7 +1407,17 @@ impl<'a> Exec<'a> {
                     }
                     if let Some(rule) = rule {
                         let last = i + 1 == n;
-                        let ok = if last { api(L::msg_eq, || *r_pn == Some(msg))? } else { r_pn.is_none() };
+                        let asked = grp.want_pn;
+                        let ok = if last {
+                            let eq = api(L::msg_eq, || *r_pn == Some(msg))?;
+                            let img = match r_pn.as_ref() {
+                                Some(x) => Some(api(L::pn_accessors, || pn_img(x))?),
+                                None => None,
+                            };
+                            eq && img == asked
+                        } else {
+                            r_pn.is_none()
+                        };
                         if last {
                             if rule == R::C10_running {
                                 self.p.rt_c10_running_checked += 1;
